@@ -109,3 +109,62 @@ func LemmaRootPositions() {
 	verifAssert(idx == len(got), "C16.RootPositions.count")
 	verifReach("C16.RootPositions")
 }
+
+// DetectOffset: for an existing position pos(r,o,h) of an n-leaf forest (h = TreeRows(n)) the
+// returned tree index is the number of trees bigger than the tree t holding the position, the
+// branch length is t-r, and walking from that tree's root along the returned bits - first step
+// to a child of the root, every later step to a child of the current node's sibling (nodes point
+// to their nieces) - ends at the position.
+func LemmaDetectOffset() {
+	// height-split form: the forest height is a parameter, everything else symbolic
+	h := uint8(verifParam("h", 63))
+	r := verifNondetU8("r")
+	if pr := verifParam("r", -1); pr >= 0 {
+		r = uint8(pr) // row fixed by the configuration (large heights)
+	}
+	o := verifNondetU64("o")
+	verifAssume(r <= h)
+	verifAssume(o < uint64(1)<<(h-r))
+	n := verifNondetU64("n")
+	verifAssume(geoRowsOK(n, h))
+	verifAssume(n >= 1)
+	verifAssume((o+1)<<r <= n) // the node exists
+	// t = the tree holding leaf L = o<<r: highest bit where L and n differ
+	t := verifNondetU8("t")
+	if pt := verifParam("t", -1); pt >= 0 {
+		t = uint8(pt) // tree fixed by the configuration (large heights)
+	}
+	L := o << r
+	verifAssume(t <= h)
+	verifAssume((n>>t)&1 == 1)
+	verifAssume((L>>t)&1 == 0)
+	verifAssume(verifIteBool(t == 63, true, (L>>(t+1)) == (n>>(t+1))))
+	p := geoStart(r, h) + o
+	tree, branchLen, bits, err := DetectOffset(p, n)
+	verifAssert(err == nil, "C16.DetectOffset.err")
+	// number of bigger trees = popcount(n >> (t+1))
+	bigger := uint8(0)
+	for b := uint8(1); b <= h; b++ {
+		bigger += uint8(verifIteU64(verifIteBool(b > t, (n>>b)&1 == 1, false), 1, 0))
+	}
+	verifAssert(tree == bigger, "C16.DetectOffset.tree")
+	verifAssert(r <= t, "C16.DetectOffset.row-below-root")
+	verifAssert(branchLen == t-r, "C16.DetectOffset.branchLen")
+	// walk
+	row := t
+	off := (n &^ ((uint64(2) << t) - 1)) >> t
+	for s := uint8(0); s < h; s++ {
+		active := s < branchLen
+		i := branchLen - 1 - s
+		b := (bits >> i) & 1
+		base := off
+		if s > 0 {
+			base = off ^ 1
+		}
+		row = uint8(verifIteU64(active, uint64(row-1), uint64(row)))
+		off = verifIteU64(active, 2*base+b, off)
+	}
+	verifAssert(row == r, "C16.DetectOffset.walk-row")
+	verifAssert(off == o, "C16.DetectOffset.walk-offset")
+	verifReach("C16.DetectOffset")
+}
